@@ -19,7 +19,7 @@ var Vocab = []string{
 	"\n", "\n", "\n", "\n", " ", "\t", "\r\n",
 }
 
-var hostileBytes = []string{"\x00", "\x1a", "\xff", "\xc3", "\r", "\r\n", "\v", "\f", " ", " ", "é", "λ", "\x7f", "\\", "\"", "'", "`", "~", "^", "?", "[", "]"}
+var hostileBytes = []string{";", ";", " ; x", ",", ":", "\n", "\x00", "\x1a", "\xff", "\xc3", "\r", "\r\n", "\v", "\f", " ", " ", "é", "λ", "\x7f", "\\", "\"", "'", "`", "~", "^", "?", "[", "]"}
 
 func splitTokens(s string) []string {
 	// split into runs of word characters, single punctuation, and whitespace runs (kept)
